@@ -84,6 +84,9 @@ func (g *rpGen) route(pfx string) Sx {
 			reg = path + "/"
 		}
 	}
+	if pfx != "" && g.r.Chance(1, 10) { // a route path that repeats the prefix of its own groups is still prefixed
+		reg, path = pfx+path, pfx+path
+	}
 	var later []Sx
 	if g.r.Chance(1, 3) {
 		later = g.mws(2)
